@@ -104,6 +104,9 @@ type limitedFileReader struct {
 }
 
 func (l *limitedFileReader) Read(b []byte) (int, error) {
+	if len(b) == 0 {
+		return 0, nil
+	}
 	if l.limit <= 0 {
 		return 0, io.EOF
 	}
